@@ -145,10 +145,37 @@ func directedC01(rec *lib.Rec, r *lib.Rng) {
 	}
 }
 
+// partialPadMessages: the root is a far pointer whose landing pad is the last, incomplete word of a segment whose
+// length is not a multiple of 8 (single far), or whose second landing-pad word is (double far)
+func partialPadMessages(r *lib.Rng) []string {
+	w := func(x uint64) string {
+		var b [8]byte
+		binary.LittleEndian.PutUint64(b[:], x)
+		return lib.Hex(b[:])
+	}
+	var out []string
+	for k := uint64(0); k <= 2; k++ {
+		for tail := 1; tail <= 7; tail += 2 {
+			tb := lib.Hex(r.Bytes(tail))
+			pre := ""
+			if k > 0 {
+				pre = "z" + strconv.Itoa(int(8*k)) + "+"
+			}
+			out = append(out, w(k<<3|2|1<<32)+","+pre+tb)                                       // single far, pad = the partial word
+			out = append(out, w(k<<3|4|2|1<<32)+","+pre+w(uint64(r.Intn(4))<<3|2|1<<32)+"+"+tb) // double far, tag word partial
+		}
+	}
+	return out
+}
+
 func genC01(rec *lib.Rec, r *lib.Rng, thorough bool) {
 	genTranslatorStream(rec, r, map[bool]int{false: 400, true: 20000}[thorough], nil)
 	if Shard == 0 {
 		directedC01(rec, r)
+		for _, m := range partialPadMessages(r) {
+			rec.Op("M", "read walk 4096 64 "+m, true)
+			rec.Op("S", "read tree "+m, true)
+		}
 	}
 	n := 6000
 	if thorough {
@@ -173,6 +200,42 @@ func genC01(rec *lib.Rec, r *lib.Rng, thorough bool) {
 			rec.Op("S", "read nopanic equal "+lim+segsStr(segs), total >= 16)
 			rec.Op("S", "read nopanic canon "+lim+segsStr(segs), total >= 16)
 			rec.Op("S", "read nopanic copy "+lim+segsStr(segs), total >= 16)
+			rec.Op("S", "read nopanic text "+lim+segsStr(segs), total >= 16)
+			rec.Op("S", "read nopanic extract "+lim+segsStr(segs), total >= 16)
+		}
+		if i%6 == 1 {
+			// a well-formed struct (or struct list) whose every 16-bit lane holds a small number: enum values and union
+			// discriminants at, just below and just above the number of members of whatever type it is rendered as
+			dw, pc := 1+r.Intn(8), r.Intn(5)
+			mk := func() *Val {
+				s := &Val{Kind: vStruct, Data: make([]byte, 8*dw)}
+				for k := 0; k+2 <= len(s.Data); k += 2 {
+					binary.LittleEndian.PutUint16(s.Data[k:], uint16(r.Pick(0, 1, 2, 3, 4, 5, 6, 7, 8, 9, r.Intn(64), 0xffff)))
+				}
+				for k := 0; k < pc; k++ {
+					b := 2
+					var ch *Val
+					switch r.Intn(4) {
+					case 0:
+						ch = &Val{Kind: vNull}
+					case 1:
+						n := 1 + r.Intn(6)
+						pr := make([]byte, 2*n)
+						for q := 0; q < n; q++ {
+							pr[2*q] = byte(r.Intn(12))
+						}
+						ch = &Val{Kind: vList, EK: 3, N: n, Prim: pr}
+					default:
+						ch = GenVal(r, 2, &b)
+					}
+					s.Ptrs = append(s.Ptrs, ch)
+				}
+				return s
+			}
+			sg := Encode(r, mk(), 1+r.Intn(2), 0, 0, false)
+			rec.Op("S", "read nopanic text 1048576 64 "+segsStr(sg), true)
+			rec.Op("S", "read nopanic extract 1048576 64 "+segsStr(sg), true)
+			rec.Count("small-lanes")
 		}
 		if i%5 == 0 { // a Message / Decoder reused for a second message: nothing of the first may show through
 			segsB, _ := genMessage(r)
@@ -417,7 +480,28 @@ func genC03(rec *lib.Rec, r *lib.Rng, thorough bool) {
 	}
 	n /= Shards
 	bad := 0
+	if Shard == 0 {
+		for _, m := range partialPadMessages(r) {
+			rec.Op("S", "read tree "+m, true)
+		}
+	}
 	for i := 0; i < n; i++ {
+		if i%6 == 0 { // a Message / Decoder reused for a second message: the values read are the second message's
+			b1, b2 := 3+r.Intn(10), 3+r.Intn(10)
+			a := Encode(r, GenVal(r, 4, &b1), 1+r.Intn(3), r.Intn(8), r.Intn(8), r.Bool())
+			bmsg := Encode(r, GenVal(r, 4, &b2), 1+r.Intn(2), r.Intn(8), r.Intn(8), r.Bool())
+			rec.Op("S", "read reuse "+r.PickS("reset", "reset", "dec", "pdec")+" "+segsStr(a)+" "+segsStr(bmsg), true)
+			rec.Count("reuse")
+		}
+		if i%4 == 0 { // default-aware accessors: only a null pointer means "the default"
+			b3 := 3 + r.Intn(12)
+			v := genStruct(r, 3, &b3, r.Intn(3), 1+r.Intn(4))
+			if r.Intn(3) == 0 && len(v.Ptrs) > 0 { // a present, zero-sized struct / an empty list
+				v.Ptrs[r.Intn(len(v.Ptrs))] = []*Val{{Kind: vStruct}, {Kind: vList, EK: 2}, {Kind: vList, EK: 0, N: 3}, {Kind: vNull}}[r.Intn(4)]
+			}
+			rec.Op("S", "read defaults "+segsStr(Encode(r, v, 1+r.Intn(3), r.Intn(8), r.Intn(8), r.Bool())), true)
+			rec.Count("defaults")
+		}
 		b := 4 + r.Intn(40)
 		nseg := 1 + r.Intn(4)
 		v := GenVal(r, 6, &b)
